@@ -169,4 +169,51 @@ example : ∀ k, applyMap [([1], [7]), ([1, 2], [8])] k =
 example : applyMap [([1], [7]), ([1, 2], [8]), ([1], [])] [1, 2] = some [8] := by decide
 example : applyMap [([1], [7]), ([1, 2], [8]), ([1], [])] [1] = none := by decide
 
+
+/-! Non-vacuity for the proof and database theorems (tests on literals, with a toy hash function that
+the kernel can evaluate: the first 32 bytes of the input, zero-padded). -/
+namespace Examples
+
+def toyH : Hash := fun b => (b ++ List.replicate 32 0).take 32
+def leafTrie : Node := run [([1], [7])]
+def big (b : UInt8) : List UInt8 := List.replicate 40 b
+/-- three 40-byte values under keys one of which is a prefix of another: a four-node proof -/
+def t2 : Node := run [([1], big 7), ([1, 2], big 8), ([0x21], big 9)]
+
+example : (prove toyH t2 (hexKey [1, 2])).length = 4 := by decide
+example : verify toyH (rootHash toyH t2) (hexKey [1, 2]) (prove toyH t2 (hexKey [1, 2])) = .value (big 8) := by decide
+example : verify toyH (rootHash toyH t2) (hexKey [1, 3]) (prove toyH t2 (hexKey [1, 3])) = .absent := by decide
+-- one changed byte in every node: the nodes no longer hash to what their parents name
+example : verify toyH (rootHash toyH t2) (hexKey [1, 2])
+    ((prove toyH t2 (hexKey [1, 2])).map fun b => b.set 5 0x55) = .err := by decide
+-- the hypotheses of `proof_sound` are met by the honest proof (and by itself with a junk blob added)
+example : (verify toyH (rootHash toyH t2) (hexKey [1, 2]) (prove toyH t2 (hexKey [1, 2]))).isAnswer = true := by decide
+example : (verify toyH (rootHash toyH t2) (hexKey [1, 2]) ([1, 2, 3] :: prove toyH t2 (hexKey [1, 2]))).isAnswer = true := by decide
+
+-- the codec hypothesis of `proof_complete_partial` holds of a concrete stored node …
+set_option maxRecDepth 20000 in
+theorem codec_leafTrie : Codec toyH leafTrie := by
+  refine ⟨.short [0, 1, 16] (.value [7]), by rfl, ?_⟩
+  intro key
+  show pget _ _ key = nstep toyH (.short [0, 1, 16] (.value [7])) key
+  simp only [encBytes, pget, nstep]
+  split <;> simp_all [isHashed, enc]
+
+-- … so the theorem applies to it
+example : verify toyH (rootHash toyH leafTrie) (hexKey [1]) (prove toyH leafTrie (hexKey [1])) =
+      answer (lookupB leafTrie [1]) ∨ ∃ x y : List UInt8, x ≠ y ∧ toyH x = toyH y :=
+  proof_complete_partial toyH leafTrie (inv_run _) rfl [1] (by
+    intro m hm
+    have : m = leafTrie := by simpa [leafTrie, run, update, tinsert, hexKey, hexNibs, pathNodes, splitCommon] using hm
+    rw [this]; exact codec_leafTrie)
+
+-- trie.Database: a leaf `a`, a root `r` above it, Commit(r) writes both
+def dbS : Db.State := Db.insert (Db.insert {} [0xaa] 40 []) [0xbb] 50 [[0xaa]]
+example : Db.reach (dbS.mem.length + 1) dbS.mem [0xbb] [] = [[0xaa], [0xbb]] := by decide
+example : [0xaa] ∈ (([Db.DbOp.dereference [0xbb], .cap 0].foldl Db.apply (Db.commit dbS [0xbb])).disk) :=
+  db_committed_is_permanent dbS [0xbb] [0xaa] (by decide) _
+example : (Db.find dbS.mem [0xbb]).isSome = true := by decide
+
+end Examples
+
 end YouVerif.C13
